@@ -63,6 +63,11 @@ def systems(tier):
     # ... and in a box whose edge is a multiple of the spacing only up to round-off (2.1 / 0.3 = 7.000000000000001): no start point
     # may lie on the upper box face
     out.append(dict(types=["CH3"], molecules=[("CH3", 1)], box=[2.1, 2.0, 2.0], grid=None, kwargs=dict(grid_spacing=0.3), own_grid=True, devs=0))
+    # very different residue sizes (1.2 nm next to 0.15 nm): the small residues are tried 0.35 - 0.6 nm from the large one, far
+    # beyond twice their own size and far inside the cut-off (twice the largest size)
+    out.append(dict(types=["W", "CH3"], molecules=[("W", 1), ("CH3", 2)], box=[5.0, 6.0, 7.0], volumes={"W": 1.2, "S": 0.15},
+                    grid=[[2.85, 2.5, 2.5], [2.5, 3.1, 2.5], [0.5, 0.5, 0.5], [4.0, 5.0, 6.0]],
+                    input=dict(kind="c", atoms=[(1, "W", "w")], coords=[(2.5, 2.5, 2.5)], box=[5.0, 6.0, 7.0])))
     # more than 5000 supplied residues: the chain's residues go into a second search tree, forces and the 0.1 nm floor have to
     # see the residues of the first one (start point 1 sits inside the slab of supplied W: force ~2000 > limit 100; start
     # point 2 sits 0.5 nm above the slab: ~12; the step down from there ends 0.15 nm from a supplied W - above the 0.1 nm floor,
